@@ -8,7 +8,7 @@ CHECKS = {
  'C01': dict(
    category='model_checking', design_ref='DESIGN.md 5 C01',
    technique='exhaustive exploration (z3 all-SAT over verdict and schedule choice vectors) of complete runs of the real cli.ddsmt_main with real files; only the command is a model (reference reader + oracle)',
-   text='For 8 configurations spanning the three strategies, -j 1/-j 2, the three output formats and three oracle families, every verdict function and pool schedule within the budgets: each content written to the output file and the file left at exit has the token sequence of a candidate file the command was run on and answered like the golden run; the input file is byte-identical afterwards; nothing else is written outside the temporary directory. Generality beyond the scenarios rests on C05 (chain), C07 (renderers), C08 (parser), C09 (comparison).',
+   text='For 8 configurations spanning the three strategies, -j 1/-j 2, the three output formats and three oracle families, every verdict function and pool schedule within the budgets: each content written to the output file and the file left at exit has the token sequence of a candidate file the command was run on and answered like the golden run; the input file is byte-identical afterwards; nothing else is written outside the temporary directory. The command model differs from the golden run in exactly one of exit code / stdout / stderr on rejected candidates and the runs use --match-out / --match-err / --ignore-out / --ignore-err, so every stream matters. A real fork pool confirms that every process and thread gets its own candidate file (auxiliary). Generality beyond the scenarios rests on C05 (chain), C07 (renderers), C08 (parser), C09 (comparison).',
    note="Trusted: the nondeterministic environment of vlib/stubs/strat.py (oracle families: first-V free verdicts, hash classes, required tokens, consistent numerals; FakePool with atomic pull/execute/deliver steps; plain abort flag); z3 as exhaustive enumerator of choice vectors (all-SAT, generalised to the bits each run read). The strategy code itself runs natively, unmodified. Outside: real processes and torn reads between feeder thread and main thread; more free verdicts / scheduling choices than the budget; other inputs than the scenario scripts."),
  'C02': dict(
    category='model_checking', design_ref='DESIGN.md 5 C02',
@@ -63,12 +63,12 @@ CHECKS = {
  'C12': dict(
    category='model_checking', design_ref='DESIGN.md 5 C12',
    technique='bounded symbolic execution (CrossHair/z3) of Node.__eq__/__hash__/__deepcopy__/__getstate__/__setstate__ and the traversals against a nested-list model, symbolic leaf texts and a symbolic member of a hash-function family (colliding .. collision-free)',
-   text='All pairs of tree shapes up to the bound with symbolic leaf texts: equality == structural equality, symmetric, equal => equal hash, also when subtrees are shared and when the hash function collides; deepcopy gives an equal tree with fresh pairwise-distinct ids; the (un)pickling callbacks round-trip shape, ids, hashes for a leaf of arbitrary code points; dfs/bfs/count_*/filter_nodes agree with the model for every depth limit.',
+   text='All pairs of tree shapes up to the bound with symbolic leaf texts: equality == structural equality, symmetric, equal => equal hash, also when subtrees are shared and when the hash function collides; deepcopy gives an equal tree with fresh pairwise-distinct ids; the (un)pickling callbacks round-trip shape, ids, hashes for a leaf of arbitrary code points; dfs/bfs/count_*/filter_nodes agree with the model for every depth limit. A real fork pool confirms that ids never coincide across processes and that trees return unchanged (auxiliary, concrete).',
    note='Trusted: CrossHair/z3 (incl. its UTF-8 encode/decode model), listmodel, hash family H, native struct shim. binary_search is checked by concrete enumeration (float arithmetic; auxiliary, not solver-decided). Outside: larger trees, transport between real processes.'),
  'C13': dict(
    category='model_checking', design_ref='DESIGN.md 5 C13',
    technique='bounded exhaustive exploration (CrossHair path enumeration, z3 bookkeeping) of nodes.reduplicate on all DAGs obtained from forests up to the bound by re-using up to two earlier objects',
-   text='For every forest up to the bound and every way of inserting one or two earlier objects (leaf, subtree, empty list) at later non-nested positions: ids pairwise distinct afterwards, tokens unchanged, input not modified, already-unique nodes keep their identity, first occurrence of a shared node keeps its id. The choices are enumerated path by path - a bounded exhaustive claim.',
+   text='For every forest up to the bound and every way of inserting one or two earlier objects (leaf, subtree, empty list) at later non-nested positions: ids pairwise distinct afterwards, tokens unchanged, input not modified, already-unique nodes keep their identity, first occurrence of a shared node keeps its id. The choices are enumerated path by path - a bounded exhaustive claim. Call sites: along every run of the real ddmin / hierarchical / hybrid strategies under three oracle families (z3 all-SAT over the verdict bits) every input handed to a TaskGenerator or Producer has pairwise distinct ids.',
    note='Trusted: CrossHair path bookkeeping. Outside: larger forests, more than two shared insertions; the call sites in the strategies are asserted in the C05 harness.'),
  'C14': dict(
    category='model_checking', design_ref='DESIGN.md 5 C14',
@@ -93,8 +93,8 @@ CHECKS = {
  'C18': dict(
    category='model_checking', design_ref='DESIGN.md 5 C18',
    technique='exhaustive exploration (z3 all-SAT): the real strategies with one job run twice under the same token-deterministic oracle, once with the lazy and once with an arbitrary single-worker schedule; write sequences compared',
-   text='For every verdict function (hash-class and required-token oracles) and every timing of the single-worker pool within the budgets (how far the feeder runs ahead, when results are delivered), on 8 configurations over all three strategies: the sequence of accepted inputs and the final input are identical to those of the lazy schedule. Known finding C18-fresh-name-node-id (names of fresh variables contain node ids, which depend on timing) is compared modulo the number and replayed raw on every run.',
-   note="Trusted: the nondeterministic environment of vlib/stubs/strat.py (oracle families: first-V free verdicts, hash classes, required tokens, consistent numerals; FakePool with atomic pull/execute/deliver steps; plain abort flag); z3 as exhaustive enumerator of choice vectors (all-SAT, generalised to the bits each run read). The strategy code itself runs natively, unmodified. Outside: real processes and torn reads between feeder thread and main thread; more free verdicts / scheduling choices than the budget; other inputs than the scenario scripts. Independence from PYTHONHASHSEED and process ids is NOT decided (needs separate interpreters)."),
+   text='For every verdict function (hash-class and required-token oracles) and every timing of the single-worker pool within the budgets (how far the feeder runs ahead, when results are delivered), on 8 configurations over all three strategies: the sequence of accepted inputs and the final input are identical to those of the lazy schedule. Known finding C18-fresh-name-node-id (names of fresh variables contain node ids, which depend on timing) is compared modulo the number and replayed raw on every run. Hash-seed independence is only sampled: the same runs in separate interpreters under 6 (quick) / 24 (thorough) PYTHONHASHSEED values (auxiliary).',
+   note="Trusted: the nondeterministic environment of vlib/stubs/strat.py (oracle families: first-V free verdicts, hash classes, required tokens, consistent numerals; FakePool with atomic pull/execute/deliver steps; plain abort flag); z3 as exhaustive enumerator of choice vectors (all-SAT, generalised to the bits each run read). The strategy code itself runs natively, unmodified. Outside: real processes and torn reads between feeder thread and main thread; more free verdicts / scheduling choices than the budget; other inputs than the scenario scripts. Independence from PYTHONHASHSEED is sampled only; process ids are not examined."),
 }
 NOT_APPLICABLE = {}
 ALL = ['C%02d' % i for i in range(1, 19)]
